@@ -45,7 +45,8 @@ except:
 
 
 def _object_cast(m):
-    return np.array(m, dtype=object)
+    # (astype converts numpy integers, even a single numpy scalar value, to python integers)
+    return np.asarray(m).astype(object)
 
 def _raw_cast(x, y, n_bits, n_frac=0):
     """
